@@ -42,7 +42,8 @@ def gen_case(ctx: Ctx) -> dict[str, Any]:
     span_minutes = r.choice([10, 20])
     for t in range(n_traces):
         jid = f"t{t}"
-        kind = r.choice(["complete", "complete", "dangling", "names", "complete", "cross", "midroot"])
+        kind = r.choice(["complete", "complete", "dangling", "names", "complete", "cross", "midroot",
+                         "dangling+names", "rootless", "rootless+names"])
         place = r.choice(["inside", "inside", "low", "high", "straddle_lo", "straddle_hi", "enclose", "edge"])
         lo_w, hi_w = buffer * MIN, span_minutes * MIN - buffer * MIN
         if place == "inside":
@@ -69,9 +70,11 @@ def gen_case(ctx: Ctx) -> dict[str, Any]:
             # a root has no parent: None, or the empty string that OTLP/JSON exporters write for `parentSpanId`
             parent: str | None = (None if r.random() < 0.7 else "") if i == 0 else ids[r.randrange(0, i)]
             nm = name
-            if kind == "dangling" and i == n - 1:
+            if kind in ("dangling", "dangling+names") and i == n - 1:
                 parent = "absent" + str(k)
-            if kind == "names" and i > 0:
+            if kind in ("rootless", "rootless+names") and i == 0:
+                parent = "absent" + str(k)      # the root was never delivered: every span hangs below a missing one
+            if kind in ("names", "dangling+names", "rootless+names") and i > 0:
                 nm = r.choice(["other", name, "zz"])
             if kind == "cross" and i == 0 and events:
                 parent = r.choice(events)["id"]  # the root hangs below a span of another trace
@@ -175,6 +178,38 @@ def judge(case: dict[str, Any], ires: list[Any]) -> str | None:
     return None
 
 
+def pipeline_part(case: dict[str, Any], ires: list[Any], want: dict[str, Any]) -> str | None:
+    """the cleaning as `otel_to_pv` itself orchestrates it (which steps, in which order) on a second store filled with
+    the same delivery: the store it leaves and the PV sequences it yields must be those of the property's text"""
+    try:
+        pres = sl.run_impl([["ingest", case["events"]], ["pipeline"], ["dump"]], case["batch"], case["buffer"], False)
+    except Exception as ex:  # noqa: BLE001
+        return f"otel_to_pv on the same delivery: {type(ex).__name__}: {str(ex)[:200]}"
+    if pres[0] != "ok":
+        return f"ingestion ended with {pres[0]!r}"
+    if want["window"] is None:
+        return None if isinstance(pres[1], str) and pres[1].startswith("ValueError") else \
+            f"window is empty but otel_to_pv returned {str(pres[1])[:120]}"
+    if isinstance(pres[1], str) and not isinstance(ires[7], str):
+        return f"otel_to_pv raised {pres[1]}"
+    # (when the sequencer rejects a kept trace — a parent in another trace, two roots — both routes fail alike; the
+    # cleaning has run by then and the store is judged all the same)
+    d = pres[2]
+    got = [n for n in d["nodes"] if n["jobId"] not in want["free"]]
+    exp = [n for n in want["after3"] if n["jobId"] not in want["free"]]
+    if got != exp:
+        return ("otel_to_pv's cleaning leaves traces %s (spans %s), expected traces %s (spans %s)"
+                % (sorted({n["jobId"] for n in got}), len(got), sorted({n["jobId"] for n in exp}), len(exp))
+                if [n["id"] for n in got] != [n["id"] for n in exp] else
+                "otel_to_pv's cleaning leaves other workflow names than the roots': %s"
+                % [(g["id"], g["jobName"], w["jobName"]) for g, w in zip(got, exp) if g != w][:4])
+    if d["assoc"] != links_of(want["after3"]):
+        return f"otel_to_pv's cleaning leaves links {d['assoc']}, expected {links_of(want['after3'])}"
+    if not want["free"] and not isinstance(ires[7], str) and not isinstance(pres[1], str) and pres[1] != ires[7]:
+        return "otel_to_pv yields other PV sequences than streaming and sequencing the cleaned store"
+    return None
+
+
 def noninterference(case: dict[str, Any], ires: list[Any]) -> tuple[str | None, bool]:
     """same window, store that never held the removed traces -> identical PV sequences"""
     want = oracle(case["events"], case["buffer"])
@@ -205,8 +240,8 @@ def run(ctx: Ctx) -> None:
     if ctx.tier == "thorough":
         ctx.leanchecker(["O2P.Props.C11"])
     ctx.cov["rule"] = (
-        "seeded stores of 1-8 traces (1-4 spans) of kinds {complete, dangling parent, inconsistent names, root hanging "
-        "below another trace, second root} placed {inside, below, above, straddling either edge, enclosing the window, "
+        "seeded stores of 1-8 traces (1-4 spans) of kinds {complete, dangling parent, inconsistent names, both, root "
+        "never delivered (with one name or several), root hanging below another trace, second root} placed {inside, below, above, straddling either edge, enclosing the window, "
         "exactly on an edge} x time_buffer {0,1,2,3,30} minutes x batch {1,2,3,1000}, shuffled ingestion order. "
         "non-trivial: some trace removed and some trace kept"
     )
@@ -235,6 +270,11 @@ def run(ctx: Ctx) -> None:
         bad = judge(case, ires)
         if bad:
             ctx.violation(bad, {"input": inp, "observed": ires[:-1], "kinds": case["kinds"]})
+            continue
+        bad = pipeline_part(case, ires, want)
+        if bad:
+            ctx.violation(bad, {"input": {**inp, "script": [["ingest", case["events"]], ["pipeline"], ["dump"]]},
+                                "kinds": case["kinds"]})
             continue
         bad, counted = noninterference(case, ires)
         ni += counted
